@@ -195,3 +195,173 @@ m("C11","register-name-stored-unnormalised","x/rns/keeper/msg_server_register.go
   '		Name:       name,\n		Expires:    time,','		Name:       strings.TrimSpace(name),\n		Expires:    time,',"C11/R7","loaded-key=written-key:rns/Names/value/")
 m("C11","update-feed-writes-other-name","x/oracle/keeper/msg_server_feeds.go",
   '	feed.Data = msg.Data\n','	feed.Data = msg.Data\n\tfeed.Name = msg.Name + msg.Data\n',"C11/R7","loaded-key=written-key:oracle/Feed/value/")
+
+# ---- more behaviour-preserving refactors (helpers extracted)
+benign("C09","refund-open-bid-in-helper",[
+ ("x/rns/keeper/msg_server_bid.go","""	oldBid, found := k.GetBids(ctx, fmt.Sprintf("%s%s", bidder.String(), name))
+	if found {
+		oldPrice, err := sdk.ParseCoinsNormalized(oldBid.Price)
+		if err != nil {
+			return err
+		}
+		err = k.bankKeeper.SendCoinsFromModuleToAccount(ctx, types.ModuleName, bidder, oldPrice)
+		if err != nil {
+			return err
+		}
+	}
+""","""	if err := k.refundOpenBid(ctx, bidder, name); err != nil {
+		return err
+	}
+"""),
+ ("x/rns/keeper/msg_server_bid.go","func (k msgServer) Bid(","""func (k Keeper) refundOpenBid(ctx sdk.Context, bidder sdk.AccAddress, name string) error {
+	oldBid, found := k.GetBids(ctx, fmt.Sprintf("%s%s", bidder.String(), name))
+	if !found {
+		return nil
+	}
+	oldPrice, err := sdk.ParseCoinsNormalized(oldBid.Price)
+	if err != nil {
+		return err
+	}
+	return k.bankKeeper.SendCoinsFromModuleToAccount(ctx, types.ModuleName, bidder, oldPrice)
+}
+
+func (k msgServer) Bid("""),
+])
+benign("C07","plan-charge-in-helper",[
+ ("x/storage/keeper/msg_server_post_file.go","""	paymentInfo, found := k.GetStoragePaymentInfo(ctx, msg.Creator)
+	if !found {
+		return nil, sdkerrors.Wrapf(sdkerrors.ErrKeyNotFound, "storage account does not exist")
+	}
+	if paymentInfo.End.Before(ctx.BlockTime()) {
+		return nil, sdkerrors.Wrapf(sdkerrors.ErrUnauthorized, "storage account is expired")
+	}
+
+	paymentInfo.SpaceUsed += totalSize
+	if paymentInfo.SpaceUsed > paymentInfo.SpaceAvailable {
+		return nil, sdkerrors.Wrapf(sdkerrors.ErrUnauthorized, "storage account does not have enough space available %d > %d", paymentInfo.SpaceUsed, paymentInfo.SpaceAvailable)
+	}
+
+	k.SetStoragePaymentInfo(ctx, paymentInfo)
+
+	return res, nil
+}""","""	if err := k.chargePlan(ctx, msg.Creator, totalSize); err != nil {
+		return nil, err
+	}
+
+	return res, nil
+}
+
+func (k Keeper) chargePlan(ctx sdk.Context, owner string, totalSize int64) error {
+	paymentInfo, found := k.GetStoragePaymentInfo(ctx, owner)
+	if !found {
+		return sdkerrors.Wrapf(sdkerrors.ErrKeyNotFound, "storage account does not exist")
+	}
+	if paymentInfo.End.Before(ctx.BlockTime()) {
+		return sdkerrors.Wrapf(sdkerrors.ErrUnauthorized, "storage account is expired")
+	}
+
+	paymentInfo.SpaceUsed += totalSize
+	if paymentInfo.SpaceUsed > paymentInfo.SpaceAvailable {
+		return sdkerrors.Wrapf(sdkerrors.ErrUnauthorized, "storage account does not have enough space available %d > %d", paymentInfo.SpaceUsed, paymentInfo.SpaceAvailable)
+	}
+
+	k.SetStoragePaymentInfo(ctx, paymentInfo)
+	return nil
+}"""),
+])
+benign("C15","lock-collateral-in-helper",[
+ ("x/storage/keeper/msg_server_init_provider.go","""	err = k.bankKeeper.SendCoinsFromAccountToModule(ctx, account, types.CollateralCollectorName, coins) // TODO: change naming convention
+	if err != nil {""","""	err = k.lockCollateral(ctx, account, coins)
+	if err != nil {"""),
+ ("x/storage/keeper/msg_server_init_provider.go","func (k msgServer) ShutdownProvider(","""func (k Keeper) lockCollateral(ctx sdk.Context, account sdk.AccAddress, coins sdk.Coins) error {
+	return k.bankKeeper.SendCoinsFromAccountToModule(ctx, account, types.CollateralCollectorName, coins)
+}
+
+func (k msgServer) ShutdownProvider("""),
+])
+benign("C01","candidate-proof-in-helper",[
+ ("x/storage/keeper/msg_server_postproof.go","""			proof = &types.FileProof{
+				Prover:       prover,
+				Merkle:       file.Merkle,
+				Owner:        file.Owner,
+				Start:        file.Start,
+				LastProven:   ctx.BlockHeight(),
+				ChunkToProve: 0,
+			}""","""			proof = candidateProof(file, prover, ctx.BlockHeight())"""),
+ ("x/storage/keeper/msg_server_postproof.go","func (k msgServer) PostProof(","""func candidateProof(file *types.UnifiedFile, prover string, height int64) *types.FileProof {
+	return &types.FileProof{
+		Prover:       prover,
+		Merkle:       file.Merkle,
+		Owner:        file.Owner,
+		Start:        file.Start,
+		LastProven:   height,
+		ChunkToProve: 0,
+	}
+}
+
+func (k msgServer) PostProof("""),
+])
+benign("C17","candidate-proof-in-helper",[
+ ("x/storage/keeper/msg_server_postproof.go","""			proof = &types.FileProof{
+				Prover:       prover,
+				Merkle:       file.Merkle,
+				Owner:        file.Owner,
+				Start:        file.Start,
+				LastProven:   ctx.BlockHeight(),
+				ChunkToProve: 0,
+			}""","""			proof = candidateProof(file, prover, ctx.BlockHeight())"""),
+ ("x/storage/keeper/msg_server_postproof.go","func (k msgServer) PostProof(","""func candidateProof(file *types.UnifiedFile, prover string, height int64) *types.FileProof {
+	return &types.FileProof{
+		Prover:       prover,
+		Merkle:       file.Merkle,
+		Owner:        file.Owner,
+		Start:        file.Start,
+		LastProven:   height,
+		ChunkToProve: 0,
+	}
+}
+
+func (k msgServer) PostProof("""),
+])
+benign("C04","price-in-helper",[
+ ("x/storage/keeper/msg_server_buy_storage.go","""	storageCost := k.GetStorageCost(ctx, gbs, hours.TruncateInt().Int64())
+	toPay := sdk.NewCoin(msg.PaymentDenom, storageCost)
+""","""	storageCost := k.GetStorageCost(ctx, gbs, hours.TruncateInt().Int64())
+	toPay := coinOf(msg.PaymentDenom, storageCost)
+"""),
+ ("x/storage/keeper/msg_server_buy_storage.go","func (k Keeper) UpgradeStorage(","""func coinOf(denom string, amount sdk.Int) sdk.Coin {
+	return sdk.NewCoin(denom, amount)
+}
+
+func (k Keeper) UpgradeStorage("""),
+])
+benign("C10","reset-map-built-in-helper",[
+ ("x/filetree/keeper/msg_server_reset_viewers.go","""	resetViewers := make(map[string]string)
+	resetViewers[ownerViewerAddress] = ownerKey
+""","""	resetViewers := singleEntry(ownerViewerAddress, ownerKey)
+"""),
+ ("x/filetree/keeper/msg_server_reset_viewers.go","func (k msgServer) ResetViewers(","""func singleEntry(key string, value string) map[string]string {
+	m := make(map[string]string)
+	m[key] = value
+	return m
+}
+
+func (k msgServer) ResetViewers("""),
+])
+benign("C08","buy-checks-reordered",[
+ ("x/rns/keeper/msg_server_buy.go","""	if name.Value == sender {
+		return sdkerrors.Wrap(sdkerrors.ErrUnauthorized, "You cannot buy your own name.")
+	}
+
+	if sale.Owner != name.Value {
+		return sdkerrors.Wrap(sdkerrors.ErrUnauthorized, "This listing has expired.")
+	}
+""","""	if sale.Owner != name.Value {
+		return sdkerrors.Wrap(sdkerrors.ErrUnauthorized, "This listing has expired.")
+	}
+
+	if name.Value == sender {
+		return sdkerrors.Wrap(sdkerrors.ErrUnauthorized, "You cannot buy your own name.")
+	}
+"""),
+])
